@@ -7,9 +7,11 @@
     Histories: [integrate_mc_throwing ... n] is a call whose integrand throws a C++ exception from its n-th evaluation (n <= 0: never), caught by
     the caller: [None] and the statics left behind when that brings the integration to an end, [Some] value otherwise; [run_history s h] runs
     the calls [h] (each with its own stream, method, integrand, region, budget and n) one after the other from the statics [s];
-    [history_ok h]: every call has at most MXDIM = 10 dimensions. *)
+    [history_ok h]: every call has at most MXDIM = 10 dimensions.
+    Oriented regions: the limits of an axis may descend; [mins]/[maxs] are the smaller/larger limit of every axis (the box spanned by the limits),
+    [descending lo hi] counts the axes with descending limits. *)
 From Coq Require Import Reals ZArith List.
-From LP Require Import Num NumR C13_Model C14_Model C14_Proofs C14_Proofs_Hist.
+From LP Require Import Num NumR C13_Model C14_Model C14_Proofs C14_Proofs_Hist C14_Proofs_Orient.
 Import ListNotations.
 Local Open Scope R_scope.
 
@@ -140,3 +142,49 @@ Theorem C14_front_end_regions (x1 x2 y1 y2 z1 z2 : R) :
   lows (mc_region_3d x1 x2 y1 y2 z1 z2) = [x1; y1; z1] /\ highs (mc_region_3d x1 x2 y1 y2 z1 z2) = [x2; y2; z2].
 Proof. exact (front_end_regions x1 x2 y1 y2 z1 z2). Qed.
 Print Assumptions C14_front_end_regions.
+
+(** "all regions": the limits of an axis may be given in descending order.  MC_Volume, the factor of plain Monte Carlo and Miser, is then the
+    volume of the box spanned by the limits with one factor -1 for every descending axis (the sign of the oriented integral), not merely for one ... *)
+Theorem C14_volume_oriented (region : list R) :
+  mc_volume ROps region
+  = (-1) ^ descending (lows region) (highs region) * volume (mins (lows region) (highs region)) (maxs (lows region) (highs region)) /\
+  0 <= volume (mins (lows region) (highs region)) (maxs (lows region) (highs region)).
+Proof. exact (conj (eq_trans (mc_volume_spec region) (volume_oriented (lows region) (highs region))) (volume_box_nonneg (lows region) (highs region))). Qed.
+Print Assumptions C14_volume_oriented.
+
+(** ... Random_Point stays between the two limits of every axis whatever their order, so plain Monte Carlo looks at the integrand only inside the box ... *)
+Theorem C14_random_point_between (us : Z -> R) : (forall k, 0 <= us k < 1) -> forall region pos,
+  cbox (mins (lows region) (highs region)) (maxs (lows region) (highs region)) (fst (random_point ROps us region pos)).
+Proof. exact (random_point_between us). Qed.
+Print Assumptions C14_random_point_between.
+
+Theorem C14_plain_mc_points_between (us : Z -> R) : (forall k, 0 <= us k < 1) -> forall f f' region ncall,
+  (forall pt, cbox (mins (lows region) (highs region)) (maxs (lows region) (highs region)) pt -> f pt = f' pt) ->
+  brute_force ROps us f region ncall = brute_force ROps us f' region ncall.
+Proof. exact (brute_force_points_between us). Qed.
+Print Assumptions C14_plain_mc_points_between.
+
+(** ... and plain Monte Carlo and Miser integrate a constant over an oriented region to (-1)^(descending axes) * volume of the box * c. *)
+Theorem C14_constant_exact_oriented (us : Z -> R) c region ncall :
+  ((0 < ncall)%Z ->
+   brute_force ROps us (fun _ => c) region ncall
+   = (-1) ^ descending (lows region) (highs region) * volume (mins (lows region) (highs region)) (maxs (lows region) (highs region)) * c) /\
+  (length region = (2 * rdim region)%nat -> (15 <= ncall)%Z -> - big ROps <= c <= big ROps ->
+   match integrate_miser ROps us (fun _ => c) region ncall with
+   | Ok r => r = (-1) ^ descending (lows region) (highs region) * volume (mins (lows region) (highs region)) (maxs (lows region) (highs region)) * c
+   | _ => True
+   end).
+Proof. exact (conj (brute_force_constant_oriented us c region ncall) (integrate_miser_constant_oriented us c region ncall)). Qed.
+Print Assumptions C14_constant_exact_oriented.
+
+(** "the two- and three-dimensional front ends pass the region in the right order", the spherical overload of Integrate_3D with a Monte-Carlo method:
+    region {r1, costheta_1, phi_1, r2, costheta_2, phi_2}, 30000 calls by default, integrand r^2 f(r sin(acos c) cos phi, r sin(acos c) sin phi, r cos(acos c)). *)
+Theorem C14_spherical_front_end (I : backend -> (R -> res R) -> R -> R -> res R) (MC : method -> (list R -> R) -> list R -> Z -> res R)
+  (m : method) (F : R -> R -> R -> R) (r1 r2 c1 c2 phi1 phi2 : R) (p : Z) :
+  is_mc_method m = true ->
+  integrate_3d_spherical ROps I MC m F r1 r2 c1 c2 phi1 phi2 p
+  = MC m (fun args => let r := nth0 ROps args 0 in let c := nth0 ROps args 1 in let phi := nth0 ROps args 2 in
+                      r * r * F (r * sin (acos c) * cos phi) (r * sin (acos c) * sin phi) (r * cos (acos c)))
+       [r1; c1; phi1; r2; c2; phi2] (if (p =? 0)%Z then 30000%Z else p).
+Proof. exact (spherical_front_end I MC m F r1 r2 c1 c2 phi1 phi2 p). Qed.
+Print Assumptions C14_spherical_front_end.
